@@ -24,10 +24,11 @@ ASSUMPTIONS = ["packet model of DESIGN section 3", "IOS reader / NX-OS reader (s
                "known finding K02 (multi-operand neq is split per operand, pinned by the repository's "
                "own tests) is matched by its exact wrong result only"]
 REQUIRED = ["split_done", "no_split_needed", "site_Ace", "site_AceGroup", "site_Acl_flat",
-            "site_Acl_grouped", "site_platform_nxos", "site_Acl_mixed_head", "site_Acl_mixed_tail", "numbered_lines"]
+            "site_Acl_grouped", "site_platform_nxos", "site_Acl_mixed_head", "site_Acl_mixed_tail", "loose_first_checked",
+            "numbered_lines"]
 KF_NEQ = "C19:ungroup_ports:multi_operand_neq_split_per_operand"
 SITES = ("Ace", "AceGroup", "Acl_flat", "Acl_grouped", "Acl_mixed_head", "Acl_mixed_tail",
-         "platform_nxos")
+         "Acl_loose_first", "platform_nxos")
 
 
 def exprs(seed):
@@ -270,6 +271,20 @@ def check(its, site, ctx, where):
     try:
         if site == "AceGroup":
             obj = AceGroup("\n".join(it.text("ios") for it in its), platform="ios", port_nr=pnr)
+        elif site == "Acl_loose_first":
+            # an ACL grouped by remark prefix, then the entry under test INSERTED at the top as a
+            # loose item (list API): the blocks must stay the same objects, the pieces stay loose
+            if where.get("pos") != 0 or len(its) < 2 or not (
+                    not its[1].is_ace and its[1].remark.startswith("= ")):
+                return
+            from cisco_acl import Ace as _Ace
+
+            obj = PR.build_acl(its[1:], "ios", group_by="= ", port_nr=pnr)
+            loose = _Ace(its[0].text("ios"), platform="ios", port_nr=pnr)
+            for side, adr in (("srcaddr", its[0].acex.src), ("dstaddr", its[0].acex.dst)):
+                if adr.group:
+                    getattr(loose, side).items = [m.spellings("ios")[0][0] for m in adr.members]
+            obj.insert(0, loose)
         elif site.startswith("Acl_mixed"):
             # explicit AceGroup item next to plain items (not produced by group_by)
             if len(its) < 2:
@@ -311,6 +326,7 @@ def check(its, site, ctx, where):
     ids_before = {}
     for o in _flat(obj):
         ids_before.setdefault(o.line, []).append(o.uuid)
+    blocks_before = [(o.uuid, o.note) for o in obj.items if isinstance(o, AceGroup)]
     try:
         if site == "platform_nxos":
             obj.platform = "nxos"
@@ -320,6 +336,14 @@ def check(its, site, ctx, where):
         ctx.viol(f"{site}:exception", case, repr(ex), "split done")
         return
     platform = "nxos" if site == "platform_nxos" else "ios"
+    if site == "Acl_loose_first":
+        blocks_after = [(o.uuid, o.note) for o in obj.items if isinstance(o, AceGroup)]
+        n_loose = sum(1 for o in obj.items if not isinstance(o, AceGroup))
+        if blocks_after != blocks_before or (n_loose < 1):
+            ctx.viol(f"{site}:blocks_rebuilt_or_pieces_moved_into_a_block", case,
+                     dict(blocks=blocks_after, loose=n_loose), dict(blocks=blocks_before, loose=">= 1"))
+            return
+        ctx.out("loose_first_checked")
     lines = [o.line for o in _flat(obj)]
     got = _read(lines, platform, case, ctx, site)
     if got is None:
